@@ -1,4 +1,4 @@
-import ScrutModel.Lemmas.UpdateRunExitFirst
+import ScrutModel.Lemmas.UpdateRunParses
 /-!
 # Concrete documents for the theorems about the integrated model of `scrut update`
 
@@ -294,6 +294,106 @@ theorem ord_sameTexts : docGens ctrl docOrdOut [runNew] = docGens ctrl docOrd [r
   rfl
 
 theorem ord_sameConfigs : SameConfigs docOrd docOrdOut := ⟨[utOld], [utNew], docTests_ord, docTests_ordOut, rfl⟩
+
+theorem ord_cfgBlankLed : CfgBlankLed docOrd := by decide
+
+/-! ## W5: white space in front of an inline configuration that is not a YAML blank (U4 without `CfgBlankLed` is false)
+
+`update` writes the configuration text with `trim_start()`, which drops Unicode `White_Space`; the YAML parser
+skips spaces and tabs only.  In `{<U+00A0>output_stream: stderr}` the key is `<U+00A0>output_stream`, an unknown
+field, which serde ignores: the test validates STDOUT and passes.  `update` writes `{output_stream: stderr}`: the
+test now validates STDERR, fails, and the next `update` rewrites its expectations
+(finding `C10:config-leading-white-space-changes-configuration`, confirmed on the binary). -/
+
+/-- ```scrut {<U+00A0>output_stream: stderr} / $ x / a / ``` -/
+def docNbsp : List Char := ['`', '`', '`', 's', 'c', 'r', 'u', 't', ' ', '{', '\u00a0', 'o', 'u', 't', 'p', 'u', 't', '_', 's', 't', 'r', 'e', 'a', 'm', ':', ' ', 's', 't', 'd', 'e', 'r', 'r', '}', '\n', '$', ' ', 'x', '\n', 'a', '\n', '`', '`', '`', '\n']
+/-- what the first `update` writes: ```scrut {output_stream: stderr} / $ x / a / ``` -/
+def docNbspOut : List Char := ['`', '`', '`', 's', 'c', 'r', 'u', 't', ' ', '{', 'o', 'u', 't', 'p', 'u', 't', '_', 's', 't', 'r', 'e', 'a', 'm', ':', ' ', 's', 't', 'd', 'e', 'r', 'r', '}', '\n', '$', ' ', 'x', '\n', 'a', '\n', '`', '`', '`', '\n']
+/-- what the second `update` writes: ```scrut {output_stream: stderr} / $ x / b / ``` -/
+def docNbspOut2 : List Char := ['`', '`', '`', 's', 'c', 'r', 'u', 't', ' ', '{', 'o', 'u', 't', 'p', 'u', 't', '_', 's', 't', 'r', 'e', 'a', 'm', ':', ' ', 's', 't', 'd', 'e', 'r', 'r', '}', '\n', '$', ' ', 'x', '\n', 'b', '\n', '`', '`', '`', '\n']
+/-- the same block with an ordinary space behind the brace: ```scrut { output_stream: stderr} / $ x / a / ``` -/
+def docSp : List Char := ['`', '`', '`', 's', 'c', 'r', 'u', 't', ' ', '{', ' ', 'o', 'u', 't', 'p', 'u', 't', '_', 's', 't', 'r', 'e', 'a', 'm', ':', ' ', 's', 't', 'd', 'e', 'r', 'r', '}', '\n', '$', ' ', 'x', '\n', 'a', '\n', '`', '`', '`', '\n']
+def cfgErr : Yaml.Cfg := { outputStream := some .stderr, skipCode := some 80 }
+def utErr : UTest := ⟨⟨cfgErr, [⟨.equal [97], false, false⟩], none⟩, ['x'], [['a']]⟩
+/-- the command prints `a` to STDOUT, `b` to STDERR and ends in 0 -/
+def runAB : Ran := ⟨[97, 10], [98, 10], 0⟩
+
+/-- the configuration of the original is the default one: the key `<U+00A0>output_stream` is ignored -/
+theorem docTests_nbsp : docTests docNbsp = some [utA] := by rfl
+theorem docTests_nbspOut : docTests docNbspOut = some [utErr] := by rfl
+theorem docTests_sp : docTests docSp = some [utErr] := by rfl
+theorem parse_sp : (parseMarkdown parseEnv docSp).toOption.isSome = true := by decide
+
+theorem judge_AB : judge utA.test ([97, 10], [98, 10]) 0 = some .ok := by
+  have : validateStream utA.test.cfg ([97, 10], [98, 10]) = [97, 10] := by decide
+  unfold judge
+  rw [this, diff_A]
+  decide
+
+theorem allPass_nbsp : AllPass docNbsp [runAB] :=
+  allPass_one docNbsp utA runAB ([97, 10], [98, 10]) docTests_nbsp (by decide) judge_AB
+
+/-- the passing document is written: its configuration text loses the no-break space -/
+theorem nbsp_written (isOther : Char → Bool) :
+    updateDocument isOther docNbsp [runAB] = .updated docNbspOut [.ok] := by
+  rw [updateDocument_of_docTests _ _ _ _ docTests_nbsp,
+    updateTests_one isOther docNbsp utA runAB ([97, 10], [98, 10]) .ok ['$', ' ', 'x', '\n', 'a', '\n']
+      (by decide) (by decide) judge_AB (by rfl)]
+  decide
+
+theorem diff_err : diffOf utErr.test.exps [98, 10] = some [.unmatched 0, .unexpected [0]] := by
+  have hm : matrix utErr.test.exps (Newline.splitAtNewline [98, 10]) = some [[false]] := by decide
+  have hl : (Newline.splitAtNewline [98, 10]).length = 1 := by decide
+  unfold diffOf
+  simp only [hm, hl, Option.map_some]
+  simp [Diff.diff, Diff.loop, Diff.rangeFrom, Diff.unmatchedOf, Diff.findFrom, utErr, quant, cell]
+
+theorem judge_err : judge utErr.test ([97, 10], [98, 10]) 0 = some (.malformed [.unmatched 0, .unexpected [0]]) := by
+  have : validateStream utErr.test.cfg ([97, 10], [98, 10]) = [98, 10] := by decide
+  unfold judge
+  rw [this, diff_err]
+  decide
+
+/-- the written document is read with ANOTHER configuration, fails on the same run and is written again -/
+theorem nbspOut_written :
+    updateDocument ctrl docNbspOut [runAB] = .updated docNbspOut2 [.malformed [.unmatched 0, .unexpected [0]]] := by
+  rw [updateDocument_of_docTests _ _ _ _ docTests_nbspOut,
+    updateTests_one ctrl docNbspOut utErr runAB ([97, 10], [98, 10]) (.malformed [.unmatched 0, .unexpected [0]])
+      ['$', ' ', 'x', '\n', 'b', '\n'] (by decide) (by decide) judge_err (by decide)]
+  decide
+
+theorem nbsp_not_cfgBlankLed : ¬ CfgBlankLed docNbsp := by decide
+theorem nbsp_noStrayCR : NoStrayCR docNbsp := by decide
+
+theorem nbsp_quantFree : QuantFree docNbsp [.ok] := by
+  intro tests _ j u d _ hr
+  cases j with
+  | zero => simp at hr
+  | succ k => simp at hr
+
+/-- the same document with an ordinary space: every guard of U4 holds, with a configuration whose leading blank
+`update` drops -/
+theorem sp_written :
+    updateDocument ctrl docSp [runAB] = .updated docNbspOut2 [.malformed [.unmatched 0, .unexpected [0]]] := by
+  rw [updateDocument_of_docTests _ _ _ _ docTests_sp,
+    updateTests_one ctrl docSp utErr runAB ([97, 10], [98, 10]) (.malformed [.unmatched 0, .unexpected [0]])
+      ['$', ' ', 'x', '\n', 'b', '\n'] (by decide) (by decide) judge_err (by decide)]
+  decide
+
+theorem sp_noStrayCR : NoStrayCR docSp := by decide
+theorem sp_cfgBlankLed : CfgBlankLed docSp := by decide
+theorem sp_codes : ∀ r ∈ [runAB], 0 ≤ r.code ∧ r.code ≤ 255 := by decide
+
+theorem sp_quantFree : QuantFree docSp [.malformed [.unmatched 0, .unexpected [0]]] := by
+  intro tests ht j u d hu _
+  rw [docTests_sp] at ht
+  cases ht
+  cases j with
+  | zero =>
+    simp at hu
+    subst hu
+    decide
+  | succ k => simp at hu
 
 /-! ## a passing document that is settled, one that is not -/
 
